@@ -5,11 +5,16 @@ from . import text_bounded
 ID = "C10"
 LEVEL = "other"
 MODES = ["gregorian"]
-FUNCS = ["data:Duration.__eq__", "data:Duration.__abs__", "data:Duration.__hash__"]
+FUNCS = ["data:Duration.__eq__", "data:Duration.__abs__", "data:Duration.__hash__",
+         "data:Duration.__str__", "parsers:DurationParser.parse", "ghost:dur_text_round_trip"]
 LEMMAS = []
 CANARIES = ["canary.week52"]
-EXPLANATION = ("PROVED: the Duration value contracts the round trip is stated over (__eq__, __abs__, __hash__). BOUNDED: parse(str(d)) == d and str fixpoint over all 63 unit subsets x both signs x integer/decimal values, weeks, empty; designator faithfulness; the date-time-like spelling (basic and extended).")
-ASSUMPTIONS = ["str(float)/float(str) and the regular expressions are outside the modelled subset"]
+EXPLANATION = ("PROVED for integer component values (all 63 unit subsets x both signs, weeks, empty): the REAL Duration.__str__ executed symbolically emits exactly the designator spelling written from the property; the REAL DurationParser.parse executed on designator forms with symbolic number spellings (integers; comma and point decimals for the time units; leading '-') returns exactly those component values - regex matching on a form being replaced by the lexing lemma of pyvc/textlex.py (priority alternative + unique split) whose hypotheses are regular-language obligations discharged by z3 on the real DURATION_REGEXES and cross-checked on samples with re; the composition parse(str(d)) has d's fields, equals d, hashes equally and prints the same text (ghost program executing both real functions); the Duration value contracts (__eq__, __abs__, __hash__). BOUNDED (str(float)/float(str) are outside the modelled subset): parse(str(d)) == d and str fixpoint over all 63 unit subsets x both signs x integer/decimal values, weeks, empty; designator faithfulness; the date-time-like spelling (basic and extended).")
+ASSUMPTIONS = ["str(float) (decimal component values in the str direction) is outside the modelled subset: bounded grid",
+               "int(str(n)) == n and str(n) of n >= 0 is a non-empty ASCII digit run (CPython axiom)",
+               "float() of a decimal text is the real number it denotes (floats as reals)",
+               "split lemma of pyvc/textlex.py (10-line induction on strings, stated in the module) - its hypotheses are machine-checked",
+               "the date-time-like spelling goes through TimePointParser: bounded grid plus C07's proofs"]
 LEVEL_TEXT = "Bounded grid plus proved value contracts: other."
 LEVEL_NOTE = "see DESIGN section 5/C10"
 
@@ -21,6 +26,89 @@ def custom(tier, seed, repo):
     return [{"name": n, "ok": ok, "detail": d, "backend": "ast-footprint", "reproduced": False}
             for (n, ok, d) in a.persistent_store_obligations() + a.memo_obligations()
             if any(m in n for m in ("parsers:DurationParser",))]
+
+
+def lexing_obligations(repo):
+    """the lexing lemma for every designator form, on the REAL DURATION_REGEXES in the
+    order DurationParser.parse tries them; plus a sample cross-check against re"""
+    import sys
+    if repo not in sys.path:
+        sys.path.insert(0, repo)
+    from metomi.isodatetime.parsers import DurationParser
+    from pyvc import textlex
+    regs = list(DurationParser.DURATION_REGEXES)
+    units = [("years", "Y"), ("months", "M"), ("days", "D"),
+             ("hours", "H"), ("minutes", "M"), ("seconds", "S")]
+    out = []
+
+    def ob(name, ok, detail):
+        out.append({"name": name, "ok": ok is True, "detail": detail, "backend": "z3-regex",
+                    "reproduced": False if ok is not True else None})
+    forms = []
+    for mask in range(1, 64):
+        for dec in (None, ",", "."):
+            if dec and not mask >> 3:
+                continue
+            shape, expect, sample = [("s", "P")], {}, "P"
+            seen_t = False
+            for i, (nm, letter) in enumerate(units):
+                if not mask >> i & 1:
+                    continue
+                if i >= 3 and not seen_t:
+                    shape.append(("s", "T"))
+                    sample += "T"
+                    seen_t = True
+                if i >= 3 and dec:
+                    shape.append(("d", dec))
+                    sample += "%d%s%02d" % (i + 1, dec, 25 + i)
+                    expect[nm] = "%d%s%02d" % (i + 1, dec, 25 + i)
+                else:
+                    shape.append(("i",))
+                    sample += "%d" % (10 * i + 7)
+                    expect[nm] = "%d" % (10 * i + 7)
+                shape.append(("s", letter))
+                sample += letter
+            forms.append(("".join(l if mask >> i & 1 else "-" for i, (n, l) in enumerate(units))
+                          + (dec or ""), shape, expect, sample))
+    forms.append(("weeks", [("s", "P"), ("i",), ("s", "W")], {"weeks": "52"}, "P52W"))
+    for (name, shape, expect, sample) in forms:
+        merged = []
+        for p in shape:
+            if p[0] == "s" and merged and merged[-1][0] == "s":
+                merged[-1] = ("s", merged[-1][1] + p[1])
+            else:
+                merged.append(p)
+        shape = tuple(merged)
+        decided = False
+        for ri, rx in enumerate(regs):
+            verdict, groups, obs = textlex.analyse(rx, shape)
+            for (n, ok, d) in obs:
+                ob("durlex[%s].regex[%d].%s" % (name, ri, n), ok, d)
+            if verdict == "nomatch":
+                continue
+            decided = True
+            if verdict == "match":
+                got = {k: v for k, v in groups.items() if v is not None}
+                pieces = [i for i, p in enumerate(shape) if p[0] != "s"]
+                want = dict(zip(list(expect), pieces))
+                ob("durlex[%s].groups-are-the-designated-units" % name, got == want,
+                   "group -> piece index %r, expected %r" % (got, want))
+                m = rx.search(sample)
+                real = {k: v for k, v in (m.groupdict() if m else {}).items() if v is not None}
+                ob("durlex[%s].sample-agrees-with-re" % name, real == expect,
+                   "re gives %r for %r, lemma predicts %r" % (real, sample, expect))
+            break
+        if not decided:
+            ob("durlex[%s].some-regex-matches" % name, False,
+               "no pattern of DURATION_REGEXES matches the designator form (e.g. %r)" % sample)
+    return out
+
+
+_memo_custom = custom
+
+
+def custom(tier, seed, repo):
+    return _memo_custom(tier, seed, repo) + lexing_obligations(repo)
 
 
 def bounded(tier, seed, repo):
